@@ -453,6 +453,10 @@ def main():
     checked += n
     for b in bad[:4]:
         chk.violation('%s export of %r: %s' % (b['kind'], b['grammar'][:50], b['detail']), b)
+    for pr in repository_models_scenario()[:2]:
+        chk.violation(pr, {'repository_models': True})
+    checked += 4
+    chk.cov['bounds']['repository_models'] = 'file model with an import / string model loaded afterwards, global repository on/off (concrete)'
     if checked == 0:
         chk.harness_error('vacuous: nothing exported')
     chk.cov['paths_explored'] = paths
@@ -463,7 +467,50 @@ def main():
                       'exports actually validated')
 
 
+def repository_models_scenario():
+    """model_export_to_file(f, model) for a model that carries a model repository: the model itself and the
+    models of the repository all get their nodes — also when the model is not registered in its repository
+    (a string model loaded through a metamodel with a global repository after other files)"""
+    import os
+    import shutil
+    import tempfile
+    from textx import metamodel_from_str, get_children
+    from textx.export import model_export_to_file
+    import textx.scoping.providers as P
+    g = "Model: imports*=Import things+=Thing;\nImport: 'import' importURI=STRING;\nThing: 'thing' name=ID ('->' ref=[Thing])?;"
+    problems = []
+    tmp = tempfile.mkdtemp(prefix='c29r_')
+    try:
+        with open(os.path.join(tmp, 'a.m'), 'w') as f:
+            f.write('thing A1')
+        with open(os.path.join(tmp, 'b.m'), 'w') as f:
+            f.write('import "a.m"\nthing B1 -> A1')
+        for global_repo in (False, True):
+            mm = metamodel_from_str(g, global_repository=global_repo)
+            mm.register_scope_providers({'*.*': P.PlainNameImportURI()})
+            b = mm.model_from_file(os.path.join(tmp, 'b.m'))
+            lonely = mm.model_from_str('thing Lonely thing Two -> Lonely')
+            for what, model, others in (('file model with an import', b, list(b._tx_model_repository.all_models)),
+                                        ('string model loaded after the files', lonely, [])):
+                buf = io.StringIO()
+                model_export_to_file(buf, model)
+                objs = []
+                for m in [model] + others:
+                    objs += [m] + list(get_children(lambda x: True, m))
+                ids = list(dict.fromkeys(id(o) for o in objs))
+                try:
+                    validate_dot(buf.getvalue(), ids)
+                except DotError as e:
+                    problems.append('export of a %s (global repository %s): %s' % (what, global_repo, e))
+        return problems
+    finally:
+        shutil.rmtree(tmp, ignore_errors=True)
+
+
 def replay(data):
+    if data.get('repository_models'):
+        pr = repository_models_scenario()
+        return bool(pr), pr[:2]
     if 'slot' in data:
         r = judge_model(data['slot'], data['value'])
         return bool(r), r
